@@ -422,6 +422,79 @@ theorem ptSlots_window (c : ChanState) {x : PSlot} {t : Int} (h1 : x.s.ti ≤ t)
         omega
       · exact ih1 s' hs' e1 e2
 
+/-- `t` lies below the end `hi` of a slice (`None` = to the end of the arrays). -/
+def inHi (hi : Option Int) (t : Int) : Prop :=
+  match hi with
+  | some h => t < h
+  | none => True
+
+theorem slotWindows_cons (o : Bool) (s : PTSlot) (l : List PTSlot) :
+    slotWindows o (s :: l) = (s, if l.isEmpty && o then none else some s.tf) :: slotWindows o l := by
+  cases l with
+  | nil => cases o <;> rfl
+  | cons a r => rfl
+
+theorem mem_slotWindows {o : Bool} : ∀ {l : List PTSlot} {sw : PTSlot × Option Int},
+    sw ∈ slotWindows o l → sw.1 ∈ l
+  | [], sw, h => by simp [slotWindows] at h
+  | s :: l, sw, h => by
+    rw [slotWindows_cons] at h
+    rcases List.mem_cons.mp h with h | h
+    · subst h; exact List.mem_cons_self
+    · exact List.mem_cons_of_mem _ (mem_slotWindows h)
+
+theorem ptSlotsAux_isEmpty (c : ChanState) (l : List PSlot) : (ptSlotsAux c l).isEmpty = l.isEmpty := by
+  cases l with
+  | nil => rfl
+  | cons a r => rw [ptSlotsAux_cons]; rfl
+
+/-- The only slice of the per-qubit loop of `to_nested_dict` that contains a time inside pulse `x`
+is the one of the slot of `x` — also when the last slice is open-ended (channel left in EOM mode). -/
+theorem slotWindows_window (c : ChanState) (o : Bool) {x : PSlot} {t : Int} (h1 : x.s.ti ≤ t)
+    (h2 : t < x.s.tf) :
+    ∀ {l : List PSlot}, List.Pairwise (fun a b : PSlot => a.s.tf ≤ b.s.ti) l →
+      (∀ y ∈ l, y.s.ti ≤ y.s.tf) → x ∈ l →
+      (∀ sw ∈ slotWindows o (ptSlotsAux c l), sw.1.ti ≤ t → inHi sw.2 t →
+        sw.1.ti = x.s.ti ∧ sw.1.targets = x.s.targets) ∧
+      (∃ sw ∈ slotWindows o (ptSlotsAux c l), sw.1.ti = x.s.ti ∧ sw.1.targets = x.s.targets ∧ inHi sw.2 t)
+  | [], _, _, hx => by cases hx
+  | a :: rest, hsort, hle, hx => by
+    rw [ptSlotsAux_cons, slotWindows_cons, ptSlotsAux_isEmpty]
+    obtain ⟨hs1, hs2⟩ := List.pairwise_cons.mp hsort
+    have hle' : ∀ y ∈ rest, y.s.ti ≤ y.s.tf := fun y hy => hle y (List.mem_cons_of_mem _ hy)
+    obtain ⟨b1, b2⟩ := extTf_bounds c hsort hle'
+    by_cases hax : a = x
+    · subst hax
+      refine ⟨?_, ⟨_, List.mem_cons_self, rfl, rfl, ?_⟩⟩
+      · intro sw hs e1 e2
+        rcases List.mem_cons.mp hs with hs | hs
+        · subst hs; exact ⟨rfl, rfl⟩
+        · obtain ⟨y, hy, e⟩ := ptSlotsAux_ti c (mem_slotWindows hs)
+          have := hs1 y hy
+          omega
+      · show inHi (if (rest.isEmpty && o) = true then none else some (extTf c a rest)) t
+        split
+        · trivial
+        · show t < extTf c a rest; omega
+    · have hxr : x ∈ rest := by
+        rcases List.mem_cons.mp hx with hx | hx
+        · exact absurd hx.symm hax
+        · exact hx
+      have hne : rest.isEmpty = false := by
+        cases rest with
+        | nil => cases hxr
+        | cons _ _ => rfl
+      obtain ⟨ih1, sw, hs, ih2⟩ := slotWindows_window c o h1 h2 hs2 hle' hxr
+      refine ⟨?_, ⟨sw, List.mem_cons_of_mem _ hs, ih2⟩⟩
+      intro sw' hs' e1 e2
+      rcases List.mem_cons.mp hs' with hs' | hs'
+      · subst hs'
+        have := b2 x hxr
+        simp only [hne, Bool.false_and, Bool.false_eq_true, if_false] at e2
+        have e2' : t < extTf c a rest := e2
+        omega
+      · exact ih1 sw' hs' e1 e2
+
 /-! ### `to_nested_dict`: which statements reach an entry -/
 
 theorem hits_add_some {b' b : Basis} {q' q : Option Nat} {k k' : Nat} {lo h t : Int} {w w' : Rat} :
@@ -458,30 +531,57 @@ theorem hits_touch {b' b : Basis} {q' : Nat} {q : Option Nat} {t : Int} {r : Nat
     (NInstr.touch b' q').hits b q t = some r ↔ False := by
   simp [NInstr.hits]
 
+theorem hits_add {b' b : Basis} {q' q : Option Nat} {k k' : Nat} {lo t : Int} {hi : Option Int} {w w' : Rat} :
+    (NInstr.add b' q' k lo hi w).hits b q t = some (k', w') ↔
+      b' = b ∧ q' = q ∧ lo ≤ t ∧ inHi hi t ∧ k' = k ∧ w' = w := by
+  cases hi with
+  | none =>
+    rw [hits_add_none]
+    exact ⟨fun ⟨a, b1, c, d, e⟩ => ⟨a, b1, c, trivial, d, e⟩, fun ⟨a, b1, c, _, d, e⟩ => ⟨a, b1, c, d, e⟩⟩
+  | some h => exact hits_add_some
+
 /-- Local branch (`Local` channel, DMM, or `all_local`): a statement of channel `k` reaches
-`(b, q)` at `t` exactly when some pulse-target slot that targets `q` has `t` in its window
-(started at the mask end for a masked atom in XY mode). -/
+`(b, q)` at `t` exactly when some pulse-target slot that targets `q` has `t` in its slice
+(started at the mask end for a masked atom in XY mode; open-ended for the last slot of a
+channel left in EOM mode) — or, for a channel without pulses that is left in EOM mode, when
+`q` is one of its last targets. -/
 theorem mem_attrib_local {allLocal : Bool} {m : SlmMask} {k : Nat} {v : ChanView}
     (hb : v.globalBranch allLocal = false) {b : Basis} {q : Nat} {t : Int} {k' : Nat} {w : Rat} :
     (k', w) ∈ attribAt (chanInstrs allLocal m k v) b (some q) t ↔
-      k' = k ∧ b = v.basis ∧ w = v.weight q ∧ ∃ s ∈ v.slots, q ∈ s.targets ∧
-        (if v.basis == .xy && m.targets.contains q then max s.ti m.end_ else s.ti) ≤ t ∧ t < s.tf := by
+      k' = k ∧ b = v.basis ∧ w = v.weight q ∧
+      ((∃ sw ∈ slotWindows v.openEom v.slots, q ∈ sw.1.targets ∧
+          (if v.basis == .xy && m.targets.contains q then max sw.1.ti m.end_ else sw.1.ti) ≤ t ∧
+          inHi sw.2 t) ∨
+       (v.slots.isEmpty = true ∧ v.openEom = true ∧ q ∈ v.lastTargets ∧ 0 ≤ t)) := by
   unfold attribAt chanInstrs
   simp only [hb, Bool.false_eq_true, if_false, List.mem_filterMap, List.mem_append, List.mem_flatMap,
     List.mem_map, List.mem_eraseDups]
   constructor
   · rintro ⟨i, hi, hh⟩
-    rcases hi with hi | ⟨s, hs, q', hq', rfl⟩
+    rcases hi with hi | ⟨sw, hs, q', hq', rfl⟩
     · by_cases he : v.slots.isEmpty = true
       · rw [if_pos he] at hi
-        obtain ⟨q', _, rfl⟩ := List.mem_map.mp hi
-        exact (hits_touch.mp hh).elim
+        rcases List.mem_append.mp hi with hi | hi
+        · obtain ⟨q', _, rfl⟩ := List.mem_map.mp hi
+          exact (hits_touch.mp hh).elim
+        · by_cases ho : v.openEom = true
+          · rw [if_pos ho] at hi
+            obtain ⟨q', hq', rfl⟩ := List.mem_map.mp hi
+            obtain ⟨e1, e2, e3, _, e5, e6⟩ := hits_add.mp hh
+            injection e2 with e2; subst e2
+            exact ⟨e5, e1.symm, e6, .inr ⟨he, ho, List.mem_eraseDups.mp hq', e3⟩⟩
+          · rw [if_neg ho] at hi; cases hi
       · rw [if_neg he] at hi; cases hi
-    · obtain ⟨e1, e2, e3, e4, e5, e6⟩ := hits_add_some.mp hh
+    · obtain ⟨e1, e2, e3, e4, e5, e6⟩ := hits_add.mp hh
       injection e2 with e2; subst e2
-      exact ⟨e5, e1.symm, e6, s, hs, hq', e3, e4⟩
-  · rintro ⟨rfl, rfl, rfl, s, hs, hq, e3, e4⟩
-    exact ⟨_, .inr ⟨s, hs, q, hq, rfl⟩, hits_add_some.mpr ⟨rfl, rfl, e3, e4, rfl, rfl⟩⟩
+      exact ⟨e5, e1.symm, e6, .inl ⟨sw, hs, hq', e3, e4⟩⟩
+  · rintro ⟨rfl, rfl, rfl, h | ⟨he, ho, hq, e3⟩⟩
+    · obtain ⟨sw, hs, hq, e3, e4⟩ := h
+      exact ⟨_, .inr ⟨sw, hs, q, hq, rfl⟩, hits_add.mpr ⟨rfl, rfl, e3, e4, rfl, rfl⟩⟩
+    · refine ⟨NInstr.add v.basis (some q) k' 0 none (v.weight q), .inl ?_,
+        hits_add.mpr ⟨rfl, rfl, e3, trivial, rfl, rfl⟩⟩
+      rw [if_pos he, if_pos ho]
+      exact List.mem_append.mpr (.inr (List.mem_map.mpr ⟨q, List.mem_eraseDups.mpr hq, rfl⟩))
 
 /-- Global branch: the channel's samples go to `d["Global"][basis]` from `start_t` on … -/
 theorem mem_attrib_global {allLocal : Bool} {m : SlmMask} {k : Nat} {v : ChanView}
@@ -577,8 +677,13 @@ theorem chanInstrs_chan {allLocal : Bool} {m : SlmMask} {k : Nat} {v : ChanView}
             exact .inr ⟨_, _, _, _, _, rfl⟩
     · rcases List.mem_append.mp hi with hi | hi
       · split at hi
-        · obtain ⟨q', _, rfl⟩ := List.mem_map.mp hi
-          exact .inl ⟨q', rfl⟩
+        · rcases List.mem_append.mp hi with hi | hi
+          · obtain ⟨q', _, rfl⟩ := List.mem_map.mp hi
+            exact .inl ⟨q', rfl⟩
+          · split at hi
+            · obtain ⟨q', _, rfl⟩ := List.mem_map.mp hi
+              exact .inr ⟨_, _, _, _, _, rfl⟩
+            · cases hi
         · cases hi
       · obtain ⟨s, _, hi⟩ := List.mem_flatMap.mp hi
         obtain ⟨q', _, rfl⟩ := List.mem_map.mp hi
